@@ -273,6 +273,45 @@ fn fd_adapters(ctx: &Ctx, thorough: bool) -> Vec<String> {
                     let (mut a, mut b) = (file_with(&data, pos), file_with(&data, pos));
                     drive_reader(&rep, l, pos, seq, &mut a, &mut b, &|a, b| (file_state(a), file_state(b)));
                 }
+                // the same with a kernel that moves at most k bytes per read(2)/write(2): the exact
+                // forms need several calls (both the adapter and its std twin see the short calls)
+                for k in [1usize, 3] {
+                    let short = move |fds: [i32; 2]| -> Box<dyn FnMut(&crate::interpose::IoReq) -> crate::interpose::IoAnswer> {
+                        Box::new(move |r: &crate::interpose::IoReq| {
+                            if !fds.contains(&r.fd) {
+                                return crate::interpose::IoAnswer::Pass;
+                            }
+                            let n = r.count.min(k);
+                            // SAFETY: forwards a shortened request to the kernel
+                            let ret = unsafe { libc::syscall(if r.is_read { libc::SYS_read } else { libc::SYS_write }, r.fd as libc::c_long, r.buf, n) };
+                            if ret < 0 {
+                                crate::interpose::IoAnswer::Err(std::io::Error::last_os_error().raw_os_error().unwrap_or(libc::EIO))
+                            } else {
+                                crate::interpose::IoAnswer::Ret(ret as usize)
+                            }
+                        })
+                    };
+                    {
+                        let rep = Rep { ctx, adapter: "File(read, short syscalls)" };
+                        let (mut a, mut b) = (file_with(&data, pos), file_with(&data, pos));
+                        let fds = [a.as_raw_fd(), b.as_raw_fd()];
+                        crate::interpose::with_io_handler(short(fds), || drive_reader(&rep, l, pos, seq, &mut a, &mut b, &|_, _| (String::new(), String::new())));
+                        let (sa, sb) = (file_state(&a), file_state(&b));
+                        if sa != sb {
+                            rep.bad("stream-state", l, pos, seq, seq.len(), format!("{} vs {}", sa, sb));
+                        }
+                    }
+                    {
+                        let rep = Rep { ctx, adapter: "File(write, short syscalls)" };
+                        let (mut a, mut b) = (file_with(&data, pos), file_with(&data, pos));
+                        let fds = [a.as_raw_fd(), b.as_raw_fd()];
+                        crate::interpose::with_io_handler(short(fds), || drive_writer(&rep, l, pos, seq, &mut a, &mut b, &|_, _| (String::new(), String::new())));
+                        let (sa, sb) = (file_state(&a), file_state(&b));
+                        if sa != sb {
+                            rep.bad("stream-state", l, pos, seq, seq.len(), format!("{} vs {}", sa, sb));
+                        }
+                    }
+                }
                 {
                     let rep = Rep { ctx, adapter: "File(write)" };
                     let (mut a, mut b) = (file_with(&data, pos), file_with(&data, pos));
